@@ -120,3 +120,7 @@ Fixpoint all2 {A B} (f : A -> B -> bool) (a : list A) (b : list B) : bool :=
   end.
 Definition agree_own (ops : list op) (observed : list (list nat)) : bool :=
   all2 listnat_eqb (run_logs fixed_into init ops) observed.
+
+(* end-to-end histories (several model operations per foreign call): the whole drop sequence *)
+Definition agree_own_flat (ops : list op) (observed : list nat) : bool :=
+  listnat_eqb (concat (run_logs fixed_into init ops)) observed.
